@@ -280,7 +280,12 @@ pub fn eq_cross<H1: HB, H2: HB>(a: &AnyQ<H1>, b: &AnyQ<H2>) -> Result<(), String
 pub fn clone_from_pair<H: HB>(a: &AnyQ<H>, b: &AnyQ<H>, universe: &[u32]) -> Result<(), String> {
     fn go<Q: QueueLike>(a: &Q, b: &Q, universe: &[u32]) -> Result<(), String> {
         // capacity histories of the target: tight (a clone), with spare room, once much longer
-        for variant in 0..3 {
+        // the two extra histories run on the sub-universe without the last item when there are four or
+        // more items (every pair of states over 3 items; all pairs over 4 would triple the cost)
+        let top = if universe.len() >= 4 { universe.last().copied() } else { None };
+        let in_sub = |q: &Q| top.map_or(true, |t| q.q_get_b(&Key(t)).is_none());
+        let variants = if in_sub(a) && in_sub(b) { 3 } else { 1 };
+        for variant in 0..variants {
             go1(a, b, variant, universe).map_err(|e| if variant == 0 { e } else { format!("{e} [target history {variant}: {}]", ["", "reserve(64)", "8 more elements pushed and removed again"][variant]) })?;
         }
         Ok(())
